@@ -6,7 +6,7 @@
 //!
 //! usage:
 //!   c19shuttle run --catalogue DIR --tier T --ref REFS.tsv --seed S --iterations N
-//!                  --scheduler random|pct --schedule-dir DIR --out FILE
+//!                  --scheduler random|pct --schedule-dir DIR --out FILE [--gated-permille G]
 //!   c19shuttle replay --catalogue DIR --tier T --ref REFS.tsv --seed S --iterations N --scheduler K
 //!                  (re-runs the identical batch: statics of the lexer persist across
 //!                   iterations, so the batch, not one schedule, is the replay unit)
@@ -29,11 +29,16 @@ use std::sync::atomic::{AtomicU64, Ordering};
 struct Ctx {
     /// (id, text, expected key) - only sources whose reference outcome is `Returned`
     pool: Vec<(String, String, String)>,
+    /// indices of pool sources of at most 2000 bytes with at least 8 distinct words
+    wordy: Vec<usize>,
+    /// gated-churn scenarios per 1000 iterations
+    gated_permille: u32,
 }
 
 static LEX_CALLS: AtomicU64 = AtomicU64::new(0);
 static SHARED_WALKS: AtomicU64 = AtomicU64::new(0);
 static THREADS: AtomicU64 = AtomicU64::new(0);
+static GATED_CHURNS: AtomicU64 = AtomicU64::new(0);
 
 struct Budget;
 
@@ -120,8 +125,97 @@ fn churn_scenario(ctx: &std::sync::Arc<Ctx>) {
     long_lived.join().unwrap();
 }
 
+/// Gated churn: thread A lexes once (claiming whatever per-thread ordinal / shard / slot a
+/// change hands out at first use) and parks at a barrier; 2^k - 1 short-lived threads are
+/// created one after the other and each lexes a little; then thread B (and sometimes C) is
+/// created - its creation ordinal is 2^k (mostly 64) after A's - and A, B, C lex similar
+/// sources several times *at the same time*. State keyed by "thread ordinal modulo N" now
+/// collides between two live threads, with every atomic of it a scheduling point.
+fn gated_churn_scenario(ctx: &std::sync::Arc<Ctx>) {
+    GATED_CHURNS.fetch_add(1, Ordering::Relaxed);
+    let mut rng = shuttle::rand::thread_rng();
+    // mostly sources with many identifiers (more lookups, more shared slots per call)
+    let first = if !ctx.wordy.is_empty() && rng.gen_range(0u32..4) != 0 {
+        ctx.wordy[rng.gen_range(0..ctx.wordy.len())]
+    } else {
+        rng.gen_range(0..ctx.pool.len())
+    };
+    let near = |rng: &mut shuttle::rand::rngs::ThreadRng| (first + rng.gen_range(0usize..9)).saturating_sub(4).min(ctx.pool.len() - 1);
+    let small = |ctx: &Ctx, i: usize| ctx.pool[i].1.len() <= 2000;
+    let distance = match rng.gen_range(0u32..8) {
+        0 => 16usize,
+        1 => 32,
+        2 => 128,
+        3 => 256,
+        _ => 64,
+    };
+    let extra = rng.gen_range(0usize..2);
+    let parties = 2 + extra;
+    let barrier = Arc::new(shuttle::sync::Barrier::new(parties));
+    let rounds = rng.gen_range(2usize..5);
+    let mut live = Vec::new();
+    let spawn_live = |rng: &mut shuttle::rand::rngs::ThreadRng, warm: bool, what: &'static str| {
+        let ctx = ctx.clone();
+        let barrier = barrier.clone();
+        let picks: Vec<usize> = (0..rounds).map(|_| near(rng)).collect();
+        shuttle::thread::spawn(move || {
+            THREADS.fetch_add(1, Ordering::Relaxed);
+            if warm {
+                let i = picks[0];
+                if small(&ctx, i) {
+                    let text = ctx.pool[i].1.clone();
+                    let _ = lex_and_check(&ctx, i, &text, what);
+                } else {
+                    install_budget(3);
+                    let _ = lex_program(&"a b").map(|_| ());
+                }
+            }
+            barrier.wait();
+            for _ in 0..2 {
+                for &i in &picks {
+                    if small(&ctx, i) {
+                        let text = ctx.pool[i].1.clone();
+                        let _ = lex_and_check(&ctx, i, &text, what);
+                    }
+                }
+            }
+            #[cfg(sas_lexer_verif)]
+            sas_lexer::verif::set_callback(None);
+        })
+    };
+    live.push(spawn_live(&mut rng, true, "thread A of a gated churn"));
+    for k in 0..distance - 1 {
+        let ctx = ctx.clone();
+        let i = near(&mut rng);
+        let h = shuttle::thread::spawn(move || {
+            THREADS.fetch_add(1, Ordering::Relaxed);
+            // every short-lived thread lexes at least an identifier (first-use initialisers)
+            if k % 4 == 0 && ctx.pool[i].1.len() <= 200 {
+                let text = ctx.pool[i].1.clone();
+                let _ = lex_and_check(&ctx, i, &text, "short-lived thread of a gated churn");
+            } else {
+                install_budget(3);
+                let _ = lex_program(&"a b").map(|_| ());
+            }
+            #[cfg(sas_lexer_verif)]
+            sas_lexer::verif::set_callback(None);
+        });
+        h.join().unwrap();
+    }
+    live.push(spawn_live(&mut rng, false, "thread B of a gated churn"));
+    if extra == 1 {
+        live.push(spawn_live(&mut rng, false, "thread C of a gated churn"));
+    }
+    for h in live {
+        h.join().unwrap();
+    }
+}
+
 fn scenario(ctx: &std::sync::Arc<Ctx>) {
     let mut rng = shuttle::rand::thread_rng();
+    if rng.gen_range(0u32..1000) < ctx.gated_permille {
+        return gated_churn_scenario(ctx);
+    }
     if rng.gen_range(0u32..40) == 0 {
         return churn_scenario(ctx);
     }
@@ -277,7 +371,26 @@ fn main() {
         eprintln!("c19shuttle: harness error: empty source pool");
         std::process::exit(2);
     }
-    let ctx = std::sync::Arc::new(Ctx { pool });
+    let wordy: Vec<usize> = pool
+        .iter()
+        .enumerate()
+        .filter(|(_, (_, text, _))| {
+            text.len() <= 2000 && {
+                let mut words: Vec<String> = text
+                    .split(|c: char| !(c.is_ascii_alphanumeric() || c == '_'))
+                    .filter(|w| !w.is_empty() && w.len() <= 8 && w.as_bytes()[0].is_ascii_alphabetic())
+                    .map(|w| w.to_ascii_uppercase())
+                    .collect();
+                words.sort();
+                words.dedup();
+                words.len() >= 8
+            }
+        })
+        .map(|(i, _)| i)
+        .collect();
+    let gated_permille: u32 = arg(&args, "gated-permille", "50").parse().unwrap_or(50);
+    let n_wordy = wordy.len();
+    let ctx = std::sync::Arc::new(Ctx { pool, wordy, gated_permille });
     let seed: u64 = arg(&args, "seed", "1").parse().unwrap_or(1);
     let iterations: usize = arg(&args, "iterations", "1000").parse().unwrap_or(1000);
     let sched = arg(&args, "scheduler", "random");
@@ -307,9 +420,12 @@ fn main() {
     j.set("seed", util::Json::u(seed));
     j.set("scheduler", util::Json::s(&arg(&args, "scheduler", "random")));
     j.set("pool", util::Json::u(ctx.pool.len() as u64));
+    j.set("wordy_pool", util::Json::u(n_wordy as u64));
+    j.set("gated_permille", util::Json::u(u64::from(gated_permille)));
     j.set("lex_calls", util::Json::u(LEX_CALLS.load(Ordering::Relaxed)));
     j.set("shared_walks", util::Json::u(SHARED_WALKS.load(Ordering::Relaxed)));
     j.set("threads", util::Json::u(THREADS.load(Ordering::Relaxed)));
+    j.set("gated_churns", util::Json::u(GATED_CHURNS.load(Ordering::Relaxed)));
     j.set("wall_s", util::Json::Num(wall));
     j.set("failed", util::Json::Bool(result.is_err()));
     if let Err(e) = &result {
